@@ -32,6 +32,15 @@ PREF = {
        "magnitudes the property names or implies, and the helper functions / base classes / third-party behaviour (pysam, numpy, pandas, gzip) "
        "the anchored code relies on; pick the corner a test author would be LEAST likely to have thought of. It must still be realistic and "
        "keep all 81 tests passing."),
+ 'i': ("PREFERRED this time, one of: (a) a LEGAL BUT UNUSUAL corner of a FILE FORMAT or data model the code reads or writes - SAM/BAM (CIGAR "
+       "operations N, =, X, H, P, I at a read end; flag combinations; optional fields of other types: integer vs string vs float vs array; "
+       "'*' sequence or qualities; lower-case or IUPAC bases; secondary / supplementary records; mate fields), FASTQ (comments after the "
+       "name, '+name' separator lines, Windows line ends, empty records), FASTA (soft-masked lower case, line width, several records, IUPAC), VCF "
+       "(multi-allelic, missing or unphased genotypes, symbolic alleles, several records at one position, sample order), BED / GTF / whitelist "
+       "files (comment and track lines, extra or missing columns, tabs vs spaces, blank lines, repeated keys) - that the code currently handles "
+       "and your change mishandles; (b) the COMBINATION of two options or settings that are each handled correctly alone; (c) state carried by a "
+       "module-level or class-level variable, default argument or cache from one call / object / file to the next. It must still be realistic "
+       "and keep all 81 tests passing."),
 }
 props = [json.loads(l) for l in open(os.path.join(V, 'properties.jsonl'))]
 tmpl = open('/tmp/agent_prompt_template.txt').read() if os.path.exists('/tmp/agent_prompt_template.txt') else None
@@ -45,7 +54,10 @@ for p in props:
         except Exception:
             pass
     wt = f'/tmp/wt_{pid}'
-    src = open(f'/tmp/agent_prompt_{pid}.txt').read()
+    src_path = f'/tmp/agent_prompt_{pid}.txt'
+    if not os.path.exists(src_path):
+        src_path = os.path.join(V, 'tools', 'prompts', f'agent_prompt_{pid}.txt')   # copy of the last round's prompts
+    src = open(src_path).read()
     head, rest = src.split('IMPORTANT - DIVERSITY:', 1)
     _, tail = rest.split('----------------------------------------------------------------------', 1)
     div = ('IMPORTANT - DIVERSITY: other people already produced bugs for this property. Your change MUST be in a DIFFERENT place and of a '
